@@ -54,43 +54,71 @@ func (c Catalog) FindLatest(name string) *Shared {
 	return best
 }
 
-// Context is the symbol table in force: Slots[0] is $0, Slots[1..9] the system symbols.
-type Context struct {
+// Segment is a run of N consecutive ids; Slots (possibly shorter than N) gives the known prefix,
+// the rest has unknown text. Sparse so that placeholder imports with max_id 2^40 cost nothing.
+type Segment struct {
 	Slots []Slot
-	// Imports describes the import segments (excluding the system table) for reporting.
-	Imports []ImportSeg
-	// NLocals is the number of trailing local symbols.
-	NLocals int
-}
-
-type ImportSeg struct {
+	N     uint64
+	// description (imports only)
 	Name    string
 	Version int
-	MaxID   int
 	Found   bool
+	Import  bool
+}
+
+// Context is the symbol table in force. Id 0 is $0; ids 1..9 are the system symbols.
+type Context struct {
+	Segs []Segment
 }
 
 func System() *Context {
-	c := &Context{Slots: make([]Slot, 1, 10)}
+	sys := Segment{N: 9}
 	for _, t := range SystemTexts {
-		c.Slots = append(c.Slots, Slot{t, true})
+		sys.Slots = append(sys.Slots, Slot{t, true})
 	}
-	return c
+	return &Context{Segs: []Segment{sys}}
 }
 
 func (c *Context) Clone() *Context {
-	n := &Context{Slots: append([]Slot(nil), c.Slots...), Imports: append([]ImportSeg(nil), c.Imports...), NLocals: c.NLocals}
+	return &Context{Segs: append([]Segment(nil), c.Segs...)}
+}
+
+func (c *Context) MaxID() uint64 {
+	var n uint64
+	for _, s := range c.Segs {
+		n += s.N
+	}
 	return n
 }
 
-func (c *Context) MaxID() uint64 { return uint64(len(c.Slots) - 1) }
+// Imports lists the import segments (excluding the system table).
+func (c *Context) Imports() []Segment {
+	var out []Segment
+	for _, s := range c.Segs {
+		if s.Import {
+			out = append(out, s)
+		}
+	}
+	return out
+}
 
 // Lookup returns the slot for id and whether id is within the table.
 func (c *Context) Lookup(id uint64) (Slot, bool) {
-	if id >= uint64(len(c.Slots)) {
-		return Slot{}, false
+	if id == 0 {
+		return Slot{}, true
 	}
-	return c.Slots[id], true
+	off := uint64(0)
+	for _, s := range c.Segs {
+		if id <= off+s.N {
+			i := id - off - 1
+			if i < uint64(len(s.Slots)) {
+				return s.Slots[i], true
+			}
+			return Slot{}, true
+		}
+		off += s.N
+	}
+	return Slot{}, false
 }
 
 // Sym resolves an id to a model symbol.
@@ -105,40 +133,45 @@ func (c *Context) Sym(id uint64) (model.Sym, error) {
 	return model.SID(int64(id)), nil
 }
 
-// FindByName returns the lowest id carrying the text.
-func (c *Context) FindByName(text string) (uint64, bool) {
-	for i := 1; i < len(c.Slots); i++ {
-		if c.Slots[i].Known && c.Slots[i].Text == text {
-			return uint64(i), true
-		}
-	}
-	return 0, false
-}
-
-// IDsFor returns every id carrying the text.
+// IDsFor returns every id carrying the text, ascending.
 func (c *Context) IDsFor(text string) []uint64 {
 	var out []uint64
-	for i := 1; i < len(c.Slots); i++ {
-		if c.Slots[i].Known && c.Slots[i].Text == text {
-			out = append(out, uint64(i))
+	off := uint64(0)
+	for _, s := range c.Segs {
+		for i, sl := range s.Slots {
+			if uint64(i) >= s.N {
+				break
+			}
+			if sl.Known && sl.Text == text {
+				out = append(out, off+uint64(i)+1)
+			}
 		}
+		off += s.N
 	}
 	return out
 }
 
-// Import is one import declaration of a local symbol table.
-type Import struct {
-	Name     string
-	Version  int   // < 1 is treated as 1
-	MaxID    int64 // < 0: absent / unusable
+// FindByName returns the lowest id carrying the text.
+func (c *Context) FindByName(text string) (uint64, bool) {
+	ids := c.IDsFor(text)
+	if len(ids) == 0 {
+		return 0, false
+	}
+	return ids[0], true
 }
 
-// ResolveImport yields the slots an import occupies.
-// ok=false: the import is an error (no usable max_id and no exact match).
-// skip=true: the import is ignored (no name, or named $ion).
-func ResolveImport(cat Catalog, imp Import) (slots []Slot, seg ImportSeg, skip bool, err error) {
+// Import is one import declaration of a local symbol table.
+type Import struct {
+	Name    string
+	Version int   // < 1 is treated as 1
+	MaxID   int64 // < 0: absent / unusable
+}
+
+// ResolveImport yields the segment an import occupies.
+// skip=true: the import is ignored (no name, or named $ion). err: no usable max_id and no exact match.
+func ResolveImport(cat Catalog, imp Import) (seg Segment, skip bool, err error) {
 	if imp.Name == "" || imp.Name == "$ion" {
-		return nil, ImportSeg{}, true, nil
+		return Segment{}, true, nil
 	}
 	v := imp.Version
 	if v < 1 {
@@ -154,17 +187,19 @@ func ResolveImport(cat Catalog, imp Import) (slots []Slot, seg ImportSeg, skip b
 	max := imp.MaxID
 	if max < 0 {
 		if tab == nil || tab.Version != v {
-			return nil, ImportSeg{}, false, fmt.Errorf("import %s/%d has no usable max_id and no exact match", imp.Name, v)
+			return Segment{}, false, fmt.Errorf("import %s/%d has no usable max_id and no exact match", imp.Name, v)
 		}
 		max = int64(len(tab.Slots))
 	}
-	slots = make([]Slot, max)
+	seg = Segment{N: uint64(max), Name: imp.Name, Version: v, Found: tab != nil, Import: true}
 	if tab != nil {
-		for i := 0; i < int(max) && i < len(tab.Slots); i++ {
-			slots[i] = tab.Slots[i]
+		n := len(tab.Slots)
+		if int64(n) > max {
+			n = int(max)
 		}
+		seg.Slots = append([]Slot(nil), tab.Slots[:n]...)
 	}
-	return slots, ImportSeg{Name: imp.Name, Version: v, MaxID: int(max), Found: tab != nil}, false, nil
+	return seg, false, nil
 }
 
 // LSTSpec is the content of a local symbol table struct.
@@ -182,20 +217,19 @@ func Apply(cur *Context, cat Catalog, spec LSTSpec) (*Context, error) {
 	} else {
 		n = System()
 		for _, imp := range spec.Imports {
-			slots, seg, skip, err := ResolveImport(cat, imp)
+			seg, skip, err := ResolveImport(cat, imp)
 			if err != nil {
 				return nil, err
 			}
 			if skip {
 				continue
 			}
-			n.Slots = append(n.Slots, slots...)
-			n.Imports = append(n.Imports, seg)
+			n.Segs = append(n.Segs, seg)
 		}
-		n.NLocals = 0
 	}
-	n.Slots = append(n.Slots, spec.Symbols...)
-	n.NLocals += len(spec.Symbols)
+	if len(spec.Symbols) > 0 {
+		n.Segs = append(n.Segs, Segment{Slots: append([]Slot(nil), spec.Symbols...), N: uint64(len(spec.Symbols))})
+	}
 	return n, nil
 }
 
